@@ -705,6 +705,12 @@ def check(run, project):
            func="TPMS_PARAMS.encrypted", construct="encrypted() total")
     from .shared import call_signatures
     n_calls = call_signatures(run, project, "X3")
+    from .shared import unbound_locals
+    unbound_locals(run, project, "X5", ("tpmstream.io.binary.marshal", "tpmstream.common.constraints", "tpmstream.common.error",
+                                        "tpmstream.common.event", "tpmstream.common.path", "tpmstream.common.util",
+                                        "tpmstream.spec.commands.params_common", "tpmstream.spec.common.values",
+                                        "tpmstream.spec.common.base_type", "tpmstream.spec.common.tpm_rc"),
+                   what="an internal error instead of a documented outcome")
     run.require(n_calls >= 40, f"X3: only {n_calls} resolvable calls in the decode core")
     x2(run, lg)
     run.floor("X1", 70, "failure sites")
